@@ -9,6 +9,7 @@ import (
 	"math/big"
 	"sort"
 	"strings"
+	"sync"
 	"time"
 
 	"github.com/vipnode/vipnode/v2/ethnode"
@@ -203,12 +204,20 @@ func (h *FakeHost) Call(ctx context.Context, result interface{}, method string, 
 		arg = fmt.Sprint(params[0])
 	}
 	vsched.Yield("host-call:" + h.Name)
+	// pass-through mode: the pool calls hosts from concurrent goroutines
+	hostLogMu.Lock()
 	idx := len(h.Calls)
 	h.Calls = append(h.Calls, HostCall{Method: method, Arg: arg})
+	hostLogMu.Unlock()
+	finish := func(isErr bool) {
+		hostLogMu.Lock()
+		h.W.Step++
+		h.Calls[idx].Done, h.Calls[idx].Err, h.Calls[idx].Step = true, isErr, h.W.Step
+		hostLogMu.Unlock()
+	}
 	switch h.Mode {
 	case HostErr:
-		h.W.Step++
-		h.Calls[idx].Done, h.Calls[idx].Err, h.Calls[idx].Step = true, true, h.W.Step
+		finish(true)
 		return errors.New("host error (injected)")
 	case HostSilent:
 		if vsched.Active() {
@@ -218,10 +227,11 @@ func (h *FakeHost) Call(ctx context.Context, result interface{}, method string, 
 		}
 		return ctx.Err()
 	}
-	h.W.Step++
-	h.Calls[idx].Done, h.Calls[idx].Step = true, h.W.Step
+	finish(false)
 	return nil
 }
+
+var hostLogMu sync.Mutex
 
 // HostWithAddr is a FakeHost that exposes RemoteAddr (like jsonrpc2.Remote does through its codec).
 type HostWithAddr struct{ *FakeHost }
